@@ -28,10 +28,11 @@ def configs(tier, rng):
         groups[-1] += pats[:3 - len(groups[-1])]
     if tier == 'thorough':
         groups = groups + [rng.sample(ALL_PATTERNS, 5) for _ in range(4)]
-    for g in groups:
-        cfgs.append(dict(NC=2, Patterns=set(g), RowCoefs=set(rng.sample(ROW_COEFS, 3 if tier == 'quick' else 5)),
-                         ObjCoefs=set(rng.sample(OBJ_COEFS, 2 if tier == 'quick' else 4)), Rhs={-1, 1, 2} if tier == 'quick' else {-2, -1, 0, 1, 3},
-                         MaxRows=1 if tier == 'quick' else 2))
+    for gi, g in enumerate(groups):
+        two_rows = tier == 'thorough' and gi < 4
+        cfgs.append(dict(NC=2, Patterns=set(g), RowCoefs=set(rng.sample(ROW_COEFS, 3 if (tier == 'quick' or two_rows) else 5)),
+                         ObjCoefs=set(rng.sample(OBJ_COEFS, 2 if tier == 'quick' else 3)), Rhs={-1, 1, 2} if (tier == 'quick' or two_rows) else {-2, -1, 0, 1, 3},
+                         MaxRows=2 if two_rows else 1))
     return cfgs
 
 
